@@ -213,3 +213,83 @@ func H_C18_objects() {
 	}
 	verif.Reach("end")
 }
+
+// parseDecInt is the reference for CHANGETYPE(v, 'integer'): an optional
+// sign followed by decimal digits, nothing else.
+func parseDecInt(s string) (int, bool) {
+	i := 0
+	neg := false
+	if i < len(s) && (s[i] == '-' || s[i] == '+') {
+		neg = s[i] == '-'
+		i++
+	}
+	if i == len(s) {
+		return 0, true
+	}
+	n := 0
+	for ; i < len(s); i++ {
+		if s[i] < '0' || s[i] > '9' {
+			return 0, true
+		}
+		n = n*10 + int(s[i]-'0')
+	}
+	if neg {
+		n = -n
+	}
+	return n, false
+}
+
+// H_C18_changetype: CHANGETYPE of short texts over digits, signs, dots and
+// the characters Go's other integer syntaxes use (x, _), and of small
+// numbers, to every target type name (any case) and an unknown one.
+func H_C18_changetype() {
+	target := verif.Choose("target", 6)
+	names := []string{"integer", "double", "string", "array", "INTEGER", "int"}
+	src := verif.Choose("source", 2)
+	var v any
+	var text string
+	if src == 0 {
+		text = verif.Str("txt", 3+verif.Tier(), "0189x-_.+")
+		v = text
+	} else {
+		k := verif.IntRange("k", -5, 6)
+		v = float64(k) / 2
+		if k%2 == 0 {
+			text = itoaG(k / 2)
+		} else if k < 0 {
+			text = "-" + itoaG(-k/2) + ".5"
+		} else {
+			text = itoaG(k/2) + ".5"
+		}
+	}
+	doc := Map{"t": []any{Map{"v": v}}}
+	got, err := runQueryQuiet(doc, "SELECT CHANGETYPE(v, '"+names[target]+"') AS c FROM t")
+	switch target {
+	case 0, 4:
+		n, bad := parseDecInt(text)
+		if bad {
+			verif.Assert(err != nil, "not-an-integer-is-error")
+		} else {
+			verif.Assert(err == nil && verif.Eq(got, []any{Map{"c": n}}), "integer")
+		}
+	case 1:
+		for i := 0; i < len(text); i++ {
+			if text[i] == '_' {
+				verif.Assume(false) // Go's float syntax accepts digit-separating underscores (1_1 is 11): outside the reference
+			}
+		}
+		f, bad := parseDecimal(text)
+		if bad {
+			verif.Assert(err != nil, "not-a-number-is-error")
+		} else {
+			verif.Assert(err == nil && verif.Eq(got, []any{Map{"c": f}}), "double")
+		}
+	case 2:
+		verif.Assert(err == nil && verif.Eq(got, []any{Map{"c": text}}), "string")
+	case 3:
+		verif.Assert(err == nil && verif.Eq(got, []any{Map{"c": []any{v}}}), "array")
+	default:
+		verif.Assert(err != nil, "unknown-type-is-error")
+	}
+	verif.Reach("end")
+}
